@@ -20,6 +20,8 @@ package pcache
 //@ func (*ProviderCache).GetResults
 //@   property C17 C07
 //@   requires pcOK(pc) && ctx != nil && !held(pc.writeLock)
+//@   modifies mapof(pc.write), pc.read, objects(cacheInfo)
+//@   ensures pcOK(pc) && !held(pc.writeLock)
 //@   ensures-local count("call:getReadOnly") == 1
 //@   ensures result1 == nil && result0 != nil ==> len(result0) >= 1 && result0[0].Provider == &rpi.provider.AddrInfo && result0[0].Metadata == metadata && result0[0].ContextID == ctxID
 //@   loop 1: invariant len(results) >= 1 && results[0].Provider == &rpi.provider.AddrInfo && results[0].Metadata == metadata && results[0].ContextID == ctxID
@@ -129,6 +131,7 @@ package pcache
 //@   property C06 C07
 //@   requires pcOK(pc) && ctx != nil && !held(pc.writeLock)
 //@   modifies mapof(pc.write), pc.read, objects(cacheInfo)
+//@   ensures pcOK(pc) && !held(pc.writeLock)
 //@   at call Fetch#1: assert !old(has(pc.write, pid)) || count("call:Errorw") >= 1
 //@   at call As#1: after assume result ==> apiErr != nil
 //@   at call needMerge#1: assume arg0 < 2147483648 && arg1 < 2147483648
@@ -154,6 +157,8 @@ package pcache
 //@ func (*ProviderCache).getReadOnly
 //@   property C07
 //@   requires pcOK(pc) && ctx != nil && !held(pc.writeLock)
+//@   modifies mapof(pc.write), pc.read, objects(cacheInfo)
+//@   ensures pcOK(pc) && !held(pc.writeLock)
 //@   ghost hit := false
 //@   ensures-assumed result0 != nil ==> result0.provider != nil
 //@   ensures-local count("atomic.load:read") == 1 || count("call:loadReadOnly") == 1
